@@ -497,7 +497,7 @@ theorem selSetT (τ : Trivia) (hτ : ∀ q, Ws (τ q)) (ss : List Selection) (hn
     have hnE : Nxt inp selBad false (p + tO.length + tI.length) := Nxt.of_hd g2 hdC (by rintro c rfl; decide)
     have hfail : Fails gList (40 + 100) true (.call R.Selection) .nonAtomic (At inp (p + tO.length + tI.length)) :=
       (selection_fails (headNot_of_hd g2 hdC (by rintro c rfl; decide)) hnE.tok).mono (by omega)
-    obtain ⟨pss, hmany, hgood⟩ := items_many1K (rSel τ) true false (.call R.Selection) selBad 40 (SelGood τ inp) r a
+    obtain ⟨pss, hmany, hgood⟩ := items_many1K (rSel τ) true false (.call R.Selection) (fun _ => selBad) 40 (SelGood τ inp) r a
       (p + tO.length)
       (fun x hx s q hat hnx => by
         obtain ⟨pr, hr, hok, hb⟩ := (hall x hx).2 s q hat hnx
